@@ -51,7 +51,9 @@ def plan(tier, seed):
     t = [b for b in batches if b["gen"] == "targeted"]
     n_ku = 80 if tier == "quick" else 2000
     k = [{"gen": "kuloss", "seeds": [base + 800000 + i + j for j in range(per)]} for i in range(0, n_ku, per)]
-    while r or t or k:
+    n_sp = 40 if tier == "quick" else 1000
+    sp = [{"gen": "stalepath", "seeds": [base + 900000 + i + j for j in range(per)]} for i in range(0, n_sp, per)]
+    while r or t or k or sp:
         for _ in range(4):
             if r:
                 out.append(r.pop(0))
@@ -59,6 +61,8 @@ def plan(tier, seed):
             out.append(t.pop(0))
         if k:
             out.append(k.pop(0))
+        if sp:
+            out.append(sp.pop(0))
     return out
 
 
@@ -98,6 +102,41 @@ def kuloss_case(seed):
     script.sort(key=lambda o: o["t"])
     sc["script"] = script
     sc["horizon"] = t0 + dur + 160.0
+    return sc
+
+
+def stalepath_case(seed):
+    """Directed: a download (the client only acknowledges) during which the client's address is rebound; the last
+    datagram the client sent from its *old* address is held back and arrives after the server has moved to the new
+    address, at a moment when the server is quiet; later the server writes again. A late, lower-numbered packet must not
+    move the connection back to the dead address."""
+    import random
+
+    from .. import simnet
+    from ..scenarios import gen_config
+
+    rng = random.Random("stalepath/%s" % seed)
+    opts = gen_config(rng)
+    for k in ("retry", "frontend_vn"):
+        opts.pop(k, None)
+    if opts.get("versions_server") == ["v1"]:
+        opts.pop("versions_server")
+    delay = rng.choice([0.01, 0.02, 0.05])
+    fates = {"delay": delay, "adv_seconds": 0.0, "rebind_after": rng.choice([5, 7, 9, 12])}
+    sid = rng.choice([1, 3])
+    t1 = 0.5
+    t2 = t1 + rng.choice([1.5, 2.5])
+    script = [{"t": t1, "side": "server", "op": "write", "sid": sid, "n": rng.choice([15000, 30000, 60000]), "fin": False},
+              {"t": t2, "side": "server", "op": "write", "sid": sid, "n": rng.choice([1, 5000]), "fin": True}]
+    sc = {"seed": seed, "opts": opts, "fates": fates, "script": script, "lateness": 0.0, "horizon": t2 + 160.0}
+    # first pass: where does the rebinding take effect?
+    sim = simnet.SimNet(opts, simnet.Fates(seed, fates), script, [], seed=seed, horizon=t2 - 0.2)
+    try:
+        simnet.run_sim(sim)
+    except Exception:
+        return sc
+    if sim.rebound_at is not None and sim.rebound_at >= 1:
+        fates["forced"] = {"c2s:%d" % (sim.rebound_at - 1): "late:%s" % rng.choice([0.2, 0.4, 0.8])}
     return sc
 
 
@@ -233,6 +272,12 @@ def run_batch(batch):
                 res.sample({"gen": "random", "seed": seed, "opts": sc["opts"], "fates": sc["fates"], "ops": len(sc["script"]),
                             "first_ops": sc["script"][:3], "fate_counts": sim.fates.counts, "bytes_checked": dm.bytes_checked,
                             "streams_ended": dm.end_events, "virtual_end": round(sim.now, 2)}, limit=2)
+        elif batch["gen"] == "stalepath":
+            sc = stalepath_case(seed)
+            sim, dm, ok = run_scenario(sc, res, {"gen": "stalepath", "seeds": [seed]})
+            res.count("stalepath_cases")
+            res.count("stalepath_cases_with_late_old_address_datagram", 1 if sc["fates"].get("forced") else 0)
+            res.count("obs_datagrams_to_stale_address", sim.stale_address_drops)
         elif batch["gen"] == "kuloss":
             sc = kuloss_case(seed)
             sim, dm, ok = run_scenario(sc, res, {"gen": "kuloss", "seeds": [seed]})
